@@ -261,8 +261,10 @@ def booter(mod, tier, base_seed, gi, nruns, opts):
       if k is not None:
         out['violations'].append({'known': True, 'sig': v['sig'], 'what': k['what']})
         continue
-      if v['sig'] in reported:
-        out['violations'].append({'known': False, 'sig': v['sig'], 'dup': True})
+      if v['sig'] in reported or existing_replay(mod.PROP, v['sig']):
+        out['violations'].append({'known': False, 'sig': v['sig'], 'dup': True,
+                                  'replay': existing_replay(mod.PROP, v['sig']), 'seed': seed,
+                                  'detail': v['detail']})
         continue
       reported.add(v['sig'])
       path, info = make_replay(w, mod, cfg, plan, res, v, seed, tier, minimise=opts.get('minimise', True))
@@ -283,8 +285,25 @@ def _abbrev(plan):
   return json.loads(s) if len(s) < 6000 else s[:1500]
 
 
+def sig_tag(sig):
+  import hashlib
+  return hashlib.sha256(sig.encode()).hexdigest()[:8]
+
+
+def existing_replay(prop, sig):
+  import glob
+  g = sorted(glob.glob(os.path.join(REPLAY_DIR, '%s-%s-*.json' % (prop, sig_tag(sig)))))
+  return g[0] if g else None
+
+
 def make_replay(w, mod, cfg, plan, res, v, seed, tier, minimise=True):
   os.makedirs(REPLAY_DIR, exist_ok=True)
+  # claim the signature early so that concurrent groups do not minimise it again
+  path = os.path.join(REPLAY_DIR, '%s-%s-%d.json' % (mod.PROP, sig_tag(v['sig']), seed))
+  with open(path, 'w') as f:
+    f.write(jdump({'property': mod.PROP, 'tier': tier, 'seed': seed, 'sig': v['sig'],
+                   'detail': v['detail'], 'digest': res.get('digest'), 'cfg': cfg, 'plan': plan,
+                   'choices': res['choices'], 'info': {'minimised': False}}))
   explicit = res['choices']
   info = {}
   # 1. the recorded schedule must reproduce the violation exactly
@@ -312,7 +331,7 @@ def make_replay(w, mod, cfg, plan, res, v, seed, tier, minimise=True):
   doc = {'property': mod.PROP, 'tier': tier, 'seed': seed, 'sig': v['sig'], 'detail': detail,
          'digest': digest, 'cfg': cfg, 'plan': mplan, 'choices': mexp, 'info': info,
          'original': {'plan': plan, 'choices': explicit, 'digest': res.get('digest')}}
-  path = os.path.join(REPLAY_DIR, '%s-%d.json' % (mod.PROP, seed))
+  info['detail_minimised'] = detail
   with open(path, 'w') as f:
     f.write(jdump(doc))
   return path, info
